@@ -23,7 +23,7 @@ func VerifC17Handler() {
 	verifnd.Sequential()
 	k := verifnd.Choose("case", 10) // sharded: call site x client family
 	site, v6 := k%5, k/5 == 1
-	kind := verifnd.Choose("kind", 11)
+	kind := verifnd.Choose("kind", 12)
 	client := "203.0.113.77"
 	if v6 {
 		client = "2001:db8:c11e::77"
